@@ -146,26 +146,13 @@ impl TypedProgram {
                     }
                     _ => {}
                 }
+                // The provided constants must have the declared types (checked before any of them
+                // is used to evaluate a const expression, reported together with the missing ones):
                 if literal.is_of_type(self, ty) {
                     if let Literal::NumUnsigned(size, UnsignedNumType::Usize) = literal {
                         const_sizes.insert(identifier, *size as usize);
                     }
-                }
-            }
-        }
-        if !errs.is_empty() {
-            errs.sort();
-            return Err(errs);
-        }
-        // The provided constants must have the declared types (checked before any of them is
-        // used to evaluate a const expression):
-        let mut errs = vec![];
-        for (party, deps) in self.const_deps.iter() {
-            for (c, (ty, _)) in deps {
-                let Some(literal) = consts.get(party).and_then(|deps| deps.get(c)) else {
-                    continue;
-                };
-                if !literal.is_of_type(self, ty) {
+                } else {
                     errs.push(CompilerError::InvalidLiteralType(
                         literal.clone(),
                         ty.clone(),
